@@ -138,6 +138,8 @@ def _fn_worker(eng, c, findings, tmo_ms, jobs, wfd, sem=None):
             again = [o for o in res.obligations if o.verdict in ("unknown",)]
             if not again:
                 break
+            for o in again:
+                o.seed = factor          # a different solver seed as well as a longer budget
             res2 = run.FnResult(c)
             res2.obligations = again
             run.solve_parallel(eng, [res2], jobs=jobs, timeout_ms=tmo_ms * factor, sem=sem)
